@@ -219,6 +219,12 @@ class MessageManager(interfaces.TokenInterface, interfaces.MessageManager):
         """If the message is the response can be used to satisfy a future
         duplicate message, store it."""
 
+        if message.mtype not in (ACK, RST):
+            # CONs and NONs carry message IDs from our own number space; if
+            # one of them coincides with a recently received request's
+            # message ID, it is still not a reply to that request.
+            return
+
         key = (message.remote, message.mid)
         if key in self._recent_messages:
             self._recent_messages[key] = message
